@@ -37,13 +37,14 @@ type Profile struct {
 	FwdLogP        float64          // probability that a new log entry is forward-dated (update index above its table's limits)
 	PrefixNamesP   float64          // probability that a run uses the prefix-rich alphabet (name-check refusals)
 	LongNamesP     float64          // probability that a run uses names longer than 127 bytes
+	BulkLogsP      float64          // probability that a transaction is a bulk reflog import (60-160 entries of one ref)
 }
 
 var defaultNames = []string{"HEAD", "refs/heads/a", "refs/heads/b", "refs/heads/c", "refs/tags/t", "refs/tags/u", "refs/x/y", "refs/x/z"}
 
 // prefix-rich alphabet; "a-b", "a.b", "a!" sort between "a" and "a/b"
 // ('!', '-', '.' < '/'), "a0" right after every "a/...".
-var prefixNames = []string{"a", "a/b", "a/b/c", "a/bb", "ab", "b", "b/a", "a/b/c/d", "b/a/c", "a-b", "a.b", "a!", "a0", "b/a-", "b/a/c0"}
+var prefixNames = []string{"a", "a/b", "a/b/c", "a/bb", "ab", "b", "b/a", "a/b/c/d", "b/a/c", "a-b", "a.b", "a!", "a0", "b/a-", "b/a/c0", "a-b/c", "a.b/c", "a!/x", "b/a-/d"}
 var badNames = []string{"a//b", "a/./b", "a/../b", "/a", "a/", ".", "b/.."}
 
 func pickN(r *simrt.Rng, lo, hi int) int {
@@ -168,6 +169,22 @@ func (g *genCtx) txn() TxnSpec {
 			rs.Off = r.Intn(tx.Span)
 		}
 		tx.Refs = append(tx.Refs, rs)
+	}
+	if g.p.Logs && g.p.BulkLogsP > 0 && r.Bool(g.p.BulkLogsP) {
+		// bulk reflog import: one ref, many entries over a wide index span,
+		// mostly old times with a few recent ones at arbitrary indices
+		tx.Span = 40 + r.Intn(80)
+		name := g.names[r.Intn(len(g.names))]
+		n := 60 + r.Intn(100)
+		for i := 0; i < n; i++ {
+			ls := LogSpec{Name: name, Which: -1, Off: r.Intn(tx.Span), Who: r.Intn(2), Msg: "m"}
+			ls.Time = g.timeLo + uint64(r.Intn(5))
+			if r.Bool(0.04) {
+				ls.Time = g.timeLo + 30 + uint64(r.Intn(10))
+			}
+			tx.Logs = append(tx.Logs, ls)
+		}
+		return tx
 	}
 	if g.p.Logs {
 		nl := pickN(r, g.p.LogsPerTxn[0], g.p.LogsPerTxn[1])
